@@ -22,7 +22,7 @@ func init() {
 			"(Extend with positions >= size, size 0, empty positions; Set 0/1; pre-sized builders) checked after EVERY op. Non-trivial+distinct = hash of (list, n) with a non-empty list, hash of a history with >= 2 ops.",
 		Assumptions: []string{"Of/OfMany compared only on ascending (merged) lists, sizes >= 0, positions >= 0 (Of's stated domain)", "Builder compared as a set; extra zero words are allowed",
 			"Get/Get1 probed only inside the bitmap"},
-		Flavours: releaseOnly,
+		Flavours: releaseThenGo126,
 		Required: []string{"of/empty-list", "of/n-absent", "of/n-negative", "of/n<last+1", "of/n>last+1", "of/last%64=63", "of/last%64=0", "probe/negative", "probe/beyond", "probe/maxint32", "probe/minint32",
 			"ofmany/pos>=size", "ofmany/size=0", "ofmany/empty-sub", "builder/extend-pos>=size", "builder/extend-size=0", "builder/extend-empty", "builder/set-0", "builder/set-1", "builder/presized", "roundtrip/trailing-zero-words"},
 		Families: func(c *mon.Config) []mon.Family {
